@@ -708,6 +708,14 @@ func (r *c38run) malformed(sched *simrt.Source, res *simrt.Result, stream []byte
 		bads = append(bads, bad{fmt.Sprintf("stream ends %d bytes before the declared length (complete JSON arrived)", over),
 			fmt.Sprintf("Content-Length: %d\r\n\r\n%s", len(good)+over, good), false})
 	}
+	// More than one JSON value inside the declared length: the frame is not a
+	// single message. (Only when the body is well delimited can the following
+	// frames still be expected.)
+	bads = append(bads,
+		bad{"two JSON objects in one frame", hdr(good + good), true},
+		bad{"JSON object followed by other bytes in one frame", hdr(good + ` true`), true},
+		bad{"declared length swallows the next frame", fmt.Sprintf("Content-Length: %d\r\n\r\n%s%s", len(good)+len(hdr(good)), good, hdr(good)), true},
+	)
 	bads = append(bads, bad{"stream ends inside trailing white space of the body",
 		fmt.Sprintf("Content-Length: %d\r\n\r\n%s  ", len(good)+6, good), false})
 	for _, b := range bads {
